@@ -7,8 +7,9 @@ pub fn stub_v0_deser(_b: &[u8]) -> Result<v0::DeserializeFormat, Deserialization
 }
 
 fn header_dispatch<const N: usize>() {
-    let buf: [u8; N] = crate::verif_shim::any_bytes::<N>();
-    let len: usize = kani::any();
+    let mut dr = crate::verif_shim::Draw::new();
+    let buf: [u8; N] = dr.bytes::<N>();
+    let len: usize = dr.usize();
     kani::assume(len <= N);
     let r = DeserializeFormat::deserialize(&buf[..len]);
     kani::cover!(matches!(r, Err(DeserializationError::UnsupportedFormatVersion(_))), "W:header.version_arm");
